@@ -16,9 +16,9 @@ theorem ctx?_none_of_not_mem {f : Forest} {x : Nat} (h : x ∉ f.allHandles) : f
   unfold allHandles
   obtain ⟨a, b, hab⟩ := List.append_of_mem hk
   rw [hab]
-  simp only [handlesList_append, handlesList_cons, List.mem_append]
+  simp only [fi_handlesList_append, handlesList_cons, List.mem_append]
   refine Or.inr (Or.inl ?_)
-  rw [handles_eq]; exact List.mem_cons_of_mem _ hc
+  rw [fi_handles_eq]; exact List.mem_cons_of_mem _ hc
 
 /-- A context comes from a decomposition below some frame. -/
 theorem ctx?_some_loc {f : Forest} (nd : f.allHandles.Nodup) {x : Nat} {ctx : Ctx}
@@ -100,7 +100,7 @@ theorem sibling_guards {f : Forest} (hi : f.Inv) {ref c : Nat}
   | none => rw [hpar] at hsc; simp [structureCheck] at hsc
   | some par =>
     rw [hpar] at hsc
-    obtain ⟨pv, cv, hpv, hpk, hancp, hcv, hcn, hcd⟩ := structureCheck_some hsc
+    obtain ⟨pv, cv, hpv, hpk, hancp, hcv, hcn, hcd⟩ := fi_structureCheck_some hsc
     unfold siblingReferenceCheck at hsr
     simp only [Bool.and_eq_true, bne_iff_ne, ne_eq] at hsr
     obtain ⟨sv, hsv, hsn⟩ := value?_of_isNormalNode hsr.2
